@@ -25,6 +25,7 @@ func init() {
 			"(R7) controller.synchronize folds each transition RESULT (not the planned New) into the ancestor, so a failed creation is never recorded as synchronized. " +
 			"(R8, just-in-time check — the rule family of C08.R4) ensureExpectedFile/ensureExpectedSymbolicLink accept only when mode, size, exact modification time, file identity and digest (resp. link target) equal what the scan recorded, so content modified after the scan is not removed or replaced. " +
 			"(R9, shared with C08.R3) only swapFile asks findAndMoveStagedFileIntoPlace for a replacing move, and only after its just-in-time check of the OLD file; every creation passes replace=false and every rename honours that flag — so content that appeared at a path after the scan is never overwritten by a created file. " +
+			"(R10, shared with C06.R6) the plan's lists are written only by reconcile and the disagreement handlers, whose emissions R1–R9 analyse; " +
 			"Not decided: correctness of Entry.Equal / synchronizable / nameUnion themselves (C07), the rest of the on-disk check-before-write layer (C08), multi-cycle histories.",
 		Assumptions: []string{"diff, synchronizable and extractNonDeletionChanges are pure (two calls with equal arguments are equal)", "Entry values are immutable once scanned (C07.R3)"},
 		Run:         runC01,
